@@ -26,7 +26,11 @@ Dispatch(a) ==
 StateMatches(e) ==
   /\ {<<q, EM'[q].el, EM'[q].perm>> : q \in DOMAIN EM'} = RangeOf(e.em)
   /\ {<<q, NT'[q]>> : q \in DOMAIN NT'} = RangeOf(e.nt)
-  /\ \A x \in RangeOf(e.el) : x[1] \in DOMAIN elem' /\ elem'[x[1]].idx = x[2] /\ elem'[x[1]].st = x[3]
+  /\ \A x \in RangeOf(e.el) : /\ x[1] \in DOMAIN elem' /\ elem'[x[1]].idx = x[2]
+                               /\ \/ elem'[x[1]].st = x[3]
+                                  \* several ranks, split bulk computation: a component without parts (identically zero) is marked
+                                  \* Computed only on the ranks of its colour and stays Prepared elsewhere; it evaluates to 0 either way
+                                  \/ x[4] = 0 /\ elem'[x[1]].st = "M" /\ x[3] = "P"
 
 TraceCall == /\ IsEvent("Call")
              /\ Dispatch(Cur.act)
